@@ -1,6 +1,8 @@
 import QV.Drive.Util
 import QV.Drive.C09
 import QV.Model.Codec
+import QV.Model.CompilerClass
+import QV.Drive.Comp
 namespace QV.Drive.C05
 open Lean QV QV.Types QV.Codec QV.Drive
 
@@ -108,8 +110,36 @@ def countsOp (j : Json) : R Json := do
   pure (Json.mkObj [("out", Json.arr (out.map (fun e => Json.arr #[C09.valJ e.1, toJson e.2])).toArray),
     ("total", toJson (totalCount out))])
 
+/-- `c05.e2e`: is a compiled function covered by `QV.C05.C05_end_to_end_general`?  The names the compiler is
+called with are derived from the signature and the return type as in the theorem (`inputBitNames sig`,
+`retBitNames ret` of `QV/Proofs/EndToEnd05.lean`); `in_general` = the definition list lies in `inGeneralClass`
+over these names.  If so and the ancilla choices of the real compilation are given, the compiler model is run on
+them and its gate list, number of qubits and `[qubit_map[r] for r in returns.bitvec]` are returned, so that the
+harness can check that the circuit of the instance is the one the theorem speaks of. -/
+def e2eOp (j : Json) : R Json := do
+  let sig ← parseSig (← j.getObjVal? "args")
+  let ret ← C09.parseTy (← j.getObjVal? "ret")
+  let defs ← Comp.parseDefs (← j.getObjVal? "exprs")
+  let unc ← j.getObjValAs? Bool "uncompute"
+  let inputs := (inputSymbols (translateArguments sig)).map Name.render
+  let rets := (retArg ret).bitvec.map Name.render
+  let inCls := Compiler.inGeneralClass inputs defs rets
+  let base : List (String × Json) := [("in_general", toJson inCls), ("inputs", toJson inputs), ("rets", toJson rets)]
+  if !inCls then return Json.mkObj base
+  match (j.getObjValAs? (List Nat) "choices").toOption with
+  | none => pure (Json.mkObj base)
+  | some choices =>
+    match (Compiler.compile inputs defs (some rets) unc).run { choices := choices } with
+    | .error e => pure (Json.mkObj (base ++ [("error", Json.str e)]))
+    | .ok ((), s) =>
+      pure (Json.mkObj (base ++ [("gates", gatesJ s.qc.gates.toList), ("num_qubits", toJson s.qc.numQubits),
+        ("oq", Json.arr (rets.map fun r => optNatJ (Compiler.dictGet? s.qc.qmap r)).toArray),
+        ("cache_hit", toJson (s.events.contains "cacheHit")),
+        ("choices_left", toJson s.choices.length)]))
+
 def handle (op : String) (j : Json) : Option (R Json) :=
   match op with
+  | "c05.e2e" => some (e2eOp j)
   | "c05.sig" => some (sigOp j)
   | "c05.encode" => some (encodeOp j)
   | "c05.decode" => some (decodeOp j)
